@@ -774,7 +774,7 @@ func (p *Path) indexCheck(idx *Term, n int, t types.Type, pos token.Pos) int {
 }
 
 func (p *Path) slice(instr *ssa.Slice, x, lo, hi, max Value) Value {
-	getBound := func(v Value, def int, limit int) int {
+	getBound := func(v Value, sv ssa.Value, def int, limit int) int {
 		if v == nil {
 			return def
 		}
@@ -789,7 +789,11 @@ func (p *Path) slice(instr *ssa.Slice, x, lo, hi, max Value) Value {
 		if limit+1 > p.h.MaxConcretize {
 			p.abortf(abortUnsupported, "symbolic slice bound over length %d at %s", limit, p.posStr(instr.Pos()))
 		}
-		return p.concretize(t, limit+1, tInt, "slicebound")
+		var bt types.Type = tInt
+		if sv != nil {
+			bt = sv.Type() // a bound may be of any integer type (int32 offsets, uint8 lengths, ...)
+		}
+		return p.concretize(t, limit+1, bt, "slicebound")
 	}
 	oob := func() {
 		p.targetPanicStr("runtime error: slice bounds out of range")
@@ -797,11 +801,11 @@ func (p *Path) slice(instr *ssa.Slice, x, lo, hi, max Value) Value {
 	switch x := x.(type) {
 	case StringV:
 		n := x.Len()
-		h := getBound(hi, n, n)
+		h := getBound(hi, instr.High, n, n)
 		if h < 0 {
 			oob()
 		}
-		l := getBound(lo, 0, h)
+		l := getBound(lo, instr.Low, 0, h)
 		if l < 0 {
 			oob()
 		}
@@ -811,16 +815,16 @@ func (p *Path) slice(instr *ssa.Slice, x, lo, hi, max Value) Value {
 		return p.mkString(x.B[l:h])
 	case []Value:
 		c := cap(x)
-		m := getBound(max, c, c)
+		m := getBound(max, instr.Max, c, c)
 		if m < 0 {
 			oob()
 		}
 		hdef := len(x)
-		h := getBound(hi, hdef, m)
+		h := getBound(hi, instr.High, hdef, m)
 		if h < 0 {
 			oob()
 		}
-		l := getBound(lo, 0, h)
+		l := getBound(lo, instr.Low, 0, h)
 		if l < 0 {
 			oob()
 		}
@@ -834,15 +838,15 @@ func (p *Path) slice(instr *ssa.Slice, x, lo, hi, max Value) Value {
 		}
 		arr := []Value((*x).(ArrayV))
 		c := len(arr)
-		m := getBound(max, c, c)
+		m := getBound(max, instr.Max, c, c)
 		if m < 0 {
 			oob()
 		}
-		h := getBound(hi, c, m)
+		h := getBound(hi, instr.High, c, m)
 		if h < 0 {
 			oob()
 		}
-		l := getBound(lo, 0, h)
+		l := getBound(lo, instr.Low, 0, h)
 		if l < 0 {
 			oob()
 		}
